@@ -178,15 +178,17 @@ package main
 //@   assigns tmp, effects, envOps, reqs, reqURL, stderrN
 //@   ensures no-leftover-on-error {C17}: implies(result1 != nil, tmp == old(tmp))
 //@   ensures registered-on-success {C17}: implies(result1 == nil, tmp == add(old(tmp), result0))
-//@   ensures one-request {C16}: reqs == old(reqs) || reqs == seqPush(old(reqs), sprintf5("%s/api/atlas/v2/groups/%s/clusters/%s/logs/mongodb.gz?endDate=%d&startDate=%d", VStr(c.BaseURL), VStr(projectID), VStr(host), VInt(endDate), VInt(startDate)))
-//@   ensures one-request-on-success {C16}: implies(result1 == nil, reqs == seqPush(old(reqs), sprintf5("%s/api/atlas/v2/groups/%s/clusters/%s/logs/mongodb.gz?endDate=%d&startDate=%d", VStr(c.BaseURL), VStr(projectID), VStr(host), VInt(endDate), VInt(startDate))))
+//@   ensures one-request {C16}: reqs == old(reqs) || reqs == seqPush(old(reqs), hostURL(c.BaseURL, projectID, host, startDate, endDate))
+//@   ensures one-request-on-success {C16}: implies(result1 == nil, reqs == seqPush(old(reqs), hostURL(c.BaseURL, projectID, host, startDate, endDate)))
 //@   ensures touched-environment: envOps > old(envOps)
 
 //@ func (*AtlasClient).getAtlasClusterInfo
 //@   props C16
 //@   requires: c != nil && c.HTTPClient != nil
 //@   assigns effects, envOps, reqs, reqURL
-//@   ensures one-request {C16}: reqs == old(reqs) || reqs == seqPush(old(reqs), sprintf3("%s/api/atlas/v2/groups/%s/clusters/%s", VStr(c.BaseURL), VStr(projectID), VStr(clusterName)))
+//@   ensures one-request {C16}: reqs == old(reqs) || reqs == seqPush(old(reqs), infoURL(c.BaseURL, projectID, clusterName))
+//@   ensures one-request-on-success {C16}: implies(result1 == nil, reqs == seqPush(old(reqs), infoURL(c.BaseURL, projectID, clusterName)))
+//@   sets clusterStd := ite(result1 == nil, result0.ConnectionStrings.Standard, clusterStd)
 //@   ensures nil-on-error: implies(result1 != nil, result0 == nil)
 //@   ensures info-on-success: implies(result1 == nil, result0 != nil)
 //@   ensures touched-environment: envOps > old(envOps)
@@ -200,12 +202,17 @@ package main
 //@   ensures srv {C16}: implies(result1 == nil && schemeOf(connectionString) == "mongodb+srv", len(result0) == hostCount(connectionString) && shift(selems(result0), off(result0)) == hostSeq(connectionString))
 //@   ensures hosts-in-order-ports-stripped {C16}: implies(result1 == nil && schemeOf(connectionString) != "mongodb+srv", len(result0) == hostCount(connectionString) && MapStrip(hostSeq(connectionString), 0, elems(result0), off(result0), len(result0)))
 //@   ensures nil-on-error: implies(result1 != nil, result0 == nil)
+//@   ensures fresh-result: implies(result1 == nil, base(result0) == 0 || base(result0) > old(heapTop))
 
 //@ func (*AtlasClient).DownloadClusterLogs
 //@   props C17 C16
 //@   requires: c != nil && c.HTTPClient != nil
-//@   assigns tmp, effects, envOps, reqs, reqURL, stderrN, wfailOn
+//@   assigns tmp, effects, envOps, reqs, reqURL, stderrN, wfailOn, clusterStd
 //@   ensures only-std-writers: wfailOn == store(store(old(wfailOn), os.Stdout, wfailOn[os.Stdout]), os.Stderr, wfailOn[os.Stderr])
+//@   loop 1 invariant one-request-per-host-in-order {C16}: clusterStd == atlasClusterInfo.ConnectionStrings.Standard && implies(schemeOf(clusterStd) != "mongodb+srv", _idx <= hostCount(clusterStd) && ReqAcc(seqPush(old(reqs), infoURL(c.BaseURL, projectID, clusterName)), hostSeq(clusterStd), _idx, c.BaseURL, projectID, startDate, endDate, reqs))
+//@   loop 1 invariant hosts-are-the-members {C16}: implies(schemeOf(clusterStd) != "mongodb+srv", len(hosts) == hostCount(clusterStd) && MapStrip(hostSeq(clusterStd), 0, elems(hosts), off(hosts), len(hosts))) && base(hosts) <= heapTop && (base(hosts) > old(heapTop) || base(hosts) == 0)
+//@   ensures one-request-per-host-in-order {C16}: implies(result1 == nil && schemeOf(clusterStd) != "mongodb+srv", len(result0) == hostCount(clusterStd) && ReqAcc(seqPush(old(reqs), infoURL(c.BaseURL, projectID, clusterName)), hostSeq(clusterStd), hostCount(clusterStd), c.BaseURL, projectID, startDate, endDate, reqs))
+//@   loop 1 invariant files-so-far: len(logFiles) == _idx && (base(logFiles) == 0 || base(logFiles) != base(hosts))
 //@   loop 1 invariant registered {C17}: tmp == union(old(tmp), elemsS(elems(logFiles), off(logFiles), len(logFiles)))
 //@   loop 1 invariant frame: unchangedBelow("Arr:Str") && (base(logFiles) == 0 || base(logFiles) > old(heapTop)) && envOps > old(envOps) && wfailOn == store(store(old(wfailOn), os.Stdout, wfailOn[os.Stdout]), os.Stderr, wfailOn[os.Stderr])
 //@   ensures no-leftover-on-error {C17}: implies(result1 != nil, subset(tmp, old(tmp)))
@@ -237,7 +244,7 @@ package main
 
 //@ func main$1
 //@   props C18
-//@   local file := len(args) == 1
+//@   local hasFile := len(args) == 1
 //@   local piped := bitand(fmode(statOf(os.Stdin)), 2097152) == 0
 //@   local proj := *atlasProjectId != ""
 //@   local clu := *atlasClusterName != ""
@@ -252,7 +259,7 @@ package main
 //@   local re := *redactedFieldsRegexp != ""
 //@   local fn := len(*eagerRedactionPaths) > 0
 //@   local atlas := proj || clu || start || end || pubF || privF
-//@   local oneSource := (file && !piped && !atlas) || (!file && piped && !atlas) || (!file && !piped && atlas)
+//@   local oneSource := (hasFile && !piped && !atlas) || (!hasFile && piped && !atlas) || (!hasFile && !piped && atlas)
 //@   local WD := oneSource && implies(atlas, proj && clu && out && (pubF || pubE) && (privF || privE)) && start == end && implies(enc, !piped && out) && !(re && fn)
 //@   local kf := *encryptionKeyFile
 //@   local encOn := enc && kf != ""
@@ -279,4 +286,5 @@ package main
 //@   ensures new-key-stored {C11}: implies(encOn && old(fsKind)[kf] == 0, fsKind[kf] == 1 && fsPerm[kf] == 384 && havePersisted && fsData[kf] == sbytes(b64enc(persistedKey)) && blen(persistedKey) == 64)
 //@   at_call ProcessMongoLogFile wiring {C01}: redactedString == *replacement && G.redactNumbers == *redactNumbers && G.redactBooleans == *redactBooleans && G.redactIPs == *redactIPs && G.redactNamespaces == *redactNamespaces && G.eagerRedactionPaths == *eagerRedactionPaths && (G.redactedFieldsRegexp == nil) == (*redactedFieldsRegexp == "")
 //@   at_call ProcessMongoLogFileFromReader wiring {C01}: redactedString == *replacement && G.redactNumbers == *redactNumbers && G.redactBooleans == *redactBooleans && G.redactIPs == *redactIPs && G.redactNamespaces == *redactNamespaces && G.eagerRedactionPaths == *eagerRedactionPaths && (G.redactedFieldsRegexp == nil) == (*redactedFieldsRegexp == "")
+//@   at_call ProcessMongoLogFile#1 pairing {C16}: filePath == file && fileName[outWriter] == sprintf2("%s.%d", VStr(*outputFile), VInt(i)) && file == files[i]
 //@   at_call ProcessMongoLogFile encrypt-wiring {C01,C10}: implies(enc && kf != "", shouldEncrypt && encryptionKey != nil)
